@@ -117,13 +117,14 @@ func LoadNormalised(opts LoadOpts, dry func(*Prog)) (*Prog, error) {
 	}
 	info := &NormInfo{}
 	const maxRounds = 4
+	canonTry := 0 // 0: both rewrites, 1: library forms only, 2: methods only
 	for round := 0; round <= maxRounds; round++ {
 		var res roundPlan
 		if round == 0 {
 			if os.Getenv("MLB_NO_CANON") != "" {
 				continue
 			}
-			res = planCanon(p).roundPlan
+			res = planCanon(p, canonTry != 2, canonTry != 1).roundPlan
 			if len(res.files) == 0 {
 				continue
 			}
@@ -160,6 +161,10 @@ func LoadNormalised(opts LoadOpts, dry func(*Prog)) (*Prog, error) {
 			if err != nil {
 				info.Fallback = fmt.Sprintf("round %d: expanded sources do not type-check (%v); analysing the previous form", round, firstLine(err.Error()))
 				if round == 0 {
+					if canonTry < 2 {
+						canonTry++
+						round--
+					}
 					continue
 				}
 				break
